@@ -98,7 +98,7 @@ def decimal_only(R):
     amount may be parsed with it; `from_str_radix` must be given the literal radix 10 and only a string that passed an
     all-ASCII-digits test (from_str_radix itself skips `_`)."""
     from flow import prep, callee_matches, op_local
-    from rules import CallGuard, CallSink, closures_passed
+    from rules import CallGuard, CallSink, closures_passed, returned_directly
     F = R.F
     mod = [b for b in F.bodies.values() if b.crate == "ant_evm" and (b.path.startswith(AMT) or b.path.startswith("<" + AMT)) and "::tests::" not in b.path]
     lax, radix_sites = [], []
@@ -127,7 +127,7 @@ def decimal_only(R):
         def digits_pred(bd, blk, t):
             for cl in closures_passed(F, bd, t):
                 prep(cl)
-                if any(x["term"]["k"] == "call" and (x["term"]["ncallee"] or "").endswith("::is_ascii_digit") and x["term"]["d"] == [0] for x in cl.blocks):
+                if any(x["term"]["k"] == "call" and (x["term"]["ncallee"] or "").endswith("::is_ascii_digit") and returned_directly(cl, x["term"]["d"]) for x in cl.blocks):
                     return True
             return False
         gd = CallGuard(["*core::iter::traits::iterator::Iterator>::all", "core::iter::traits::iterator::Iterator::all"], ("true",), "all characters are ASCII digits", arg_pred=digits_pred)
